@@ -458,7 +458,6 @@ impl<D: Distance> Writer<D> {
                 bitmap.insert(used?.0.node.item);
                 Ok(bitmap)
             })
-            .unwrap_or_default())
     }
 
     // we simplify the max descendants (_K) thing by considering
